@@ -302,3 +302,249 @@ class XbtRandomModel:
         u2 = self.uniform_real(0.0, 1.0)
         z0 = math.sqrt(-2.0 * math.log(u1)) * math.cos(2.0 * math.pi * u2)
         return z0 * sd + mean
+
+
+# =====================================================================================================
+# C48: configuration items.  The registry (names, types, aliases) is read from the tree's own help output; the value
+# grammars come from the C standard (strtol base 0 / strtod, as DESIGN.md fixes) and docs/source/Configuring_SimGrid.rst.
+
+INT_MIN, INT_MAX = -2 ** 31, 2 ** 31 - 1
+LONG_MIN, LONG_MAX = -2 ** 63, 2 ** 63 - 1
+TRUE_SPELLINGS = ("yes", "on", "true", "1")
+FALSE_SPELLINGS = ("no", "off", "false", "0")
+
+
+def parse_help(out):
+    """-> (items {name: {"type":..., "shown":..., "desc":...}}, aliases {alias: realname}) from config::help() / show_aliases()."""
+    items, aliases = {}, {}
+    lines = out.splitlines()
+    try:
+        a, b, c = lines.index("@@HELP"), lines.index("@@ALIASES"), lines.index("@@END-LIST")
+    except ValueError:
+        return {}, {}
+    cur = None
+    for l in lines[a + 1:b]:
+        m = re.match(r"^       Type: (int|double|boolean|string); Current value: (.*)$", l)
+        if m and cur:
+            items[cur]["type"] = m.group(1)
+            items[cur]["shown"] = m.group(2)
+            cur = None
+            continue
+        m = re.match(r"^   (\S+): (.*)$", l)
+        if m and not l.startswith("       "):
+            cur = m.group(1)
+            items[cur] = {"desc": m.group(2), "type": None, "shown": None}
+        elif cur:
+            items[cur]["desc"] += "\n" + l
+    items = {k: v for k, v in items.items() if v["type"]}
+    for l in lines[b + 1:c]:
+        p = l.split()
+        if len(p) == 2:
+            aliases[p[0]] = p[1]
+    return items, aliases
+
+
+def strtol0(s):
+    """C strtol(s, &end, 0): -> (value, end_index) or (None, 0) when no conversion is performed."""
+    i = 0
+    while i < len(s) and s[i] in C_SPACE:
+        i += 1
+    neg = False
+    if i < len(s) and s[i] in "+-":
+        neg = s[i] == "-"
+        i += 1
+    base = 10
+    if s[i:i + 2].lower() == "0x" and i + 2 < len(s) and s[i + 2] in "0123456789abcdefABCDEF":
+        base, i = 16, i + 2
+    elif s[i:i + 1] == "0":
+        base = 8
+    digs = {8: "01234567", 10: "0123456789", 16: "0123456789abcdefABCDEF"}[base]
+    j = i
+    while j < len(s) and s[j] in digs:
+        j += 1
+    if j == i:
+        return None, 0
+    v = int(s[i:j], base)
+    return (-v if neg else v), j
+
+
+def ref_int(s):
+    """verdict for a string given to an int item: ('accept', v) | ('reject', why) | ('lenient', v or None)
+    lenient = C spellings the docs do not mention: if accepted the value must be v (None: anything is tolerated)."""
+    if "\0" in s:
+        return ("lenient", None)
+    if re.fullmatch(r"-?(0|[1-9][0-9]*)", s):
+        v = int(s)
+        if v < INT_MIN or v > INT_MAX:
+            return ("reject", "int-overflow")
+        return ("accept", v)
+    if re.match(r"[ \t\n\v\f\r]*[+-]?0[bB]", s):
+        return ("lenient", None)                     # C23 binary literals: depends on the libc
+    v, end = strtol0(s)
+    if v is None or end != len(s):
+        return ("reject", "not-an-int")
+    if v < INT_MIN or v > INT_MAX:
+        return ("reject", "int-overflow")
+    return ("lenient", v)                            # +5, 0x1f, 017, leading blanks
+
+
+def ref_double(s):
+    """verdict for a string given to a double item (value as float)."""
+    v = classify_number(s)
+    return v
+
+
+def classify_number(s):
+    if "\0" in s:
+        return ("lenient", None)
+    body = s[1:] if s[:1] in ("+", "-") else s
+    low = body.lower()
+    if s[:1] in tuple(C_SPACE) and s.strip(C_SPACE):
+        return ("lenient", None)
+    if low.startswith("0x") or low.startswith("inf") or low.startswith("nan"):
+        return ("lenient", None)
+    if not NUM_RE.fullmatch(s):
+        return ("reject", "not-a-double")
+    if len(s) > 3000:
+        return ("lenient", None)
+    x = number_value(s)
+    if x == "over" or (x != "under" and abs(x) >= OVERFLOW):
+        return ("reject", "double-overflow")
+    if x == "under" or (x != 0 and abs(x) < DBL_MIN):
+        return ("lenient", None)
+    return ("accept", float(s))
+
+
+def ref_bool(s):
+    if "\0" in s:
+        return ("lenient", None)
+    # strcasecmp: ASCII case folding only
+    low = "".join(chr(ord(c) + 32) if "A" <= c <= "Z" else c for c in s)
+    if low in TRUE_SPELLINGS:
+        return ("accept", True)
+    if low in FALSE_SPELLINGS:
+        return ("accept", False)
+    return ("reject", "not-a-boolean")
+
+
+def ref_parse(typ, s):
+    if typ == "int":
+        return ref_int(s)
+    if typ == "double":
+        return ref_double(s)
+    if typ == "boolean":
+        return ref_bool(s)
+    return ("accept", s) if "\0" not in s else ("lenient", None)
+
+
+# --- validation rules of the items that have a validating callback (from Configuring_SimGrid.rst and the help texts) ---
+# items that may only be set inside the model checker or after a replay path was given
+MC_GATED = {"model-check/timeout", "model-check/rand-seed", "model-check/k-alternatives", "model-check/communications-determinism",
+            "model-check/send-determinism", "model-check/debug", "model-check/debug-optimality", "model-check/output-lts",
+            "smpi/buffering", "model-check/max-depth"}
+# enumerations: (values that must be accepted, values that depend on the build: open)
+ENUMS = {
+    "model-check/reduction": (["none", "dpor", "sdpor", "odpor", "udpor"], []),
+    "model-check/exploration-algo": (["DFS", "BeFS", "parallel"], []),
+    "model-check/strategy": (["none", "uniform"], []),
+    "smpi/buffering": (["zero", "infty"], []),
+    "cpu/optim": (["Lazy", "TI", "Full"], []),
+    "network/optim": (["Lazy", "Full"], ["TI"]),         # the docs list TI for both items "only for the Cas01 CPU model"
+    "cpu/solver": (["maxmin", "fairbottleneck"], ["bmf"]),
+    "network/solver": (["maxmin", "fairbottleneck"], ["bmf"]),
+    "disk/solver": (["maxmin", "fairbottleneck"], ["bmf"]),
+    "host/solver": (["maxmin", "fairbottleneck"], ["bmf"]),
+    "contexts/synchro": (["posix", "futex", "busy_wait"], []),
+    "plugin/dvfs/governor": (["conservative", "ondemand", "performance", "powersave"], ["adagio"]),
+    "smpi/shared-malloc": (["global", "local"], ["yes", "1", "on", "no", "0", "off"]),      # docs: global, local; message: on, off
+    "smpi/privatization": (["no", "yes", "mmap", "dlopen"], ["0", "OFF", "1", "ON"]),
+    "debug/stacktrace": (["none"], ["c++23", "dwelf", "boost", "gcc", "addr2line"]),
+}
+INT_RANGES = {"model-check/cached-states-interval": (0, INT_MAX), "model-check/parallel-thread": (1, INT_MAX),
+              "model-check/befs-threshold": (0, 100)}
+MODULE_FLAGS = ("plugin", "cpu/model", "network/model", "host/model", "disk/model")
+# items read on 2026-09 whose callback validates nothing (or that have no callback): every parsed value must be stored.
+# Items that are not listed anywhere here (new ones) get an 'open' validation verdict: stored-or-cleanly-rejected.
+PLAIN = """bmf/max-iterations bmf/precision cmonkey/host cmonkey/link cmonkey/pid cmonkey/tell cmonkey/time contexts/factory
+contexts/guard-size contexts/nthreads contexts/stack-size cpu/maxmin-selective-update debug/breakpoint debug/clean-atexit
+debug/fullstack debug/lmm-leaks debug/stacktrace/ignore debug/verbose-exit exception/cutpath help-nostop maxmin/concurrency-limit
+model-check/autoreplay model-check/dot-output model-check/eta-steps model-check/max-errors model-check/no-fork model-check/replay
+model-check/search-critical model-check/timeout-soft network/TCP-gamma network/bandwidth-factor network/crosstraffic
+network/latency-factor network/loopback-bw network/loopback-lat network/maxmin-selective-update network/weight-S path
+plugin/dvfs/max-pstate plugin/dvfs/min-pstate plugin/dvfs/sampling-rate precision/timing precision/work-amount
+smpi/IB-penalty-factors smpi/allgather smpi/allgatherv smpi/allreduce smpi/alltoall smpi/alltoallv smpi/async-small-thresh
+smpi/auto-shared-malloc-thresh smpi/barrier smpi/barrier-collectives smpi/barrier-finalization smpi/bcast smpi/coll-selector
+smpi/cpu-threshold smpi/display-allocs smpi/display-timing smpi/errors-are-fatal smpi/gather smpi/grow-injected-times smpi/hostfile
+smpi/init smpi/iprobe smpi/iprobe-cpu-usage smpi/keep-temps smpi/list-leaks smpi/map smpi/np smpi/ois smpi/or smpi/os smpi/pedantic
+smpi/privatize-libs smpi/reduce smpi/reduce_scatter smpi/replay smpi/scatter smpi/send-is-detached-thresh
+smpi/shared-malloc-blocksize smpi/shared-malloc-hugepage smpi/simulate-computation smpi/test smpi/tmpdir smpi/trace-call-location
+smpi/trace-call-use-absolute-path smpi/wtime tracing tracing/actor tracing/basic tracing/categorized tracing/comment
+tracing/comment-file tracing/disable-destroy tracing/disable_link tracing/disable_power tracing/filename tracing/platform
+tracing/platform/topology tracing/precision tracing/smpi tracing/smpi/computing tracing/smpi/display-sizes tracing/smpi/format
+tracing/smpi/format/ti-one-file tracing/smpi/group tracing/smpi/internals tracing/smpi/sleeping tracing/uncategorized tracing/vm""".split()
+
+
+# store-only items: their callback (if any) only copies the value into a variable, so a process can set them any number of
+# times and put them back (used to run cases without a fork).  The others of PLAIN have side effects that cannot be undone.
+IMPURE = {"path", "model-check/replay", "plugin/dvfs/sampling-rate", "model-check/no-fork", "debug/stacktrace/ignore",
+          "contexts/nthreads", "smpi/cpu-threshold"}
+PURE = set(PLAIN) - IMPURE
+
+
+def module_values(desc):
+    """'... Possible values (other compilation flags may activate more plugins): a, b, c.\\n (use 'help' ...' -> [a, b, c]"""
+    m = re.search(r"Possible values \([^)]*\): (.*?)\.\n", desc + "\n", re.S)
+    if not m:
+        return None
+    return [v.strip() for v in m.group(1).split(",") if v.strip()]
+
+
+def validate(name, value, replay_active, item, default=None):
+    """What the item's validation must do with a value that was parsed fine (value: python int/float/bool/str).
+    -> 'ok' (stored) | 'reject' (exception or abort with a message) | 'open' | 'exit0' (prints help and exits)."""
+    if name in MC_GATED and not replay_active:
+        return "reject"
+    if name in INT_RANGES:
+        lo, hi = INT_RANGES[name]
+        return "ok" if lo <= value <= hi else "reject"
+    if name in ENUMS:
+        must, may = ENUMS[name]
+        if value in must:
+            return "ok"
+        return "open" if value in may else "reject"
+    if name in MODULE_FLAGS:
+        vals = module_values(item["desc"])
+        if vals is None:
+            return "open"
+        if value == default:
+            return "ok"
+        if value == "help":
+            return "exit0"
+        if value in vals:
+            return "ok" if name != "plugin" else "open"     # a plugin's init function runs at once: it may have needs of its own
+        return "reject"
+    if name == "model-check/setenv":
+        return "ok" if (value == "" or "=" in value) else "reject"
+    if name == "model-check/watch":
+        if value == "":
+            return "ok"
+        toks = value.split(",")
+        if all(re.fullmatch(r"[0-9a-fA-F]{1,8}", t) for t in toks):
+            return "ok"
+        if any(re.match(r"[g-zG-Z_]", t) or t == "" for t in toks):
+            return "reject"
+        return "open"
+    if name == "smpi/host-speed":
+        if value == "auto":
+            return "open"
+        v = classify("speed", value)
+        if v.kind == "accept":
+            return "ok" if v.value > 0 else "reject"
+        return "reject" if v.kind == "reject" else "open"
+    if name == "smpi/comp-adjustment-file":
+        if value == "":
+            return "ok"
+        return "reject" if value.startswith("/nonexistent/") else "open"
+    if name in PLAIN:
+        return "ok"
+    return "open"
